@@ -62,7 +62,7 @@ mpn_mul_trunc_sqrt2(mp_ptr r1, mp_srcptr i1, mp_size_t n1,
    s1 = t2 + size;
    tt = s1 + size;
 
-   if (i1 != i2)
+   if (i1 != i2 || n1 != n2)
    {
       jj = TMP_BALLOC_MP_PTRS(4*(n + n*size));
       for (i = 0, ptr = (mp_ptr) jj + 4*n; i < 4*n; i++, ptr += size) 
@@ -83,7 +83,7 @@ mpn_mul_trunc_sqrt2(mp_ptr r1, mp_srcptr i1, mp_size_t n1,
    
    mpir_fft_trunc_sqrt2(ii, n, w, &t1, &t2, &s1, trunc);
     
-   if (i1 != i2)
+   if (i1 != i2 || n1 != n2)
    {
       j2 = mpir_fft_split_bits(jj, i2, n2, bits1, limbs);
       for (j = j2 ; j < 4*n; j++)
@@ -96,7 +96,7 @@ mpn_mul_trunc_sqrt2(mp_ptr r1, mp_srcptr i1, mp_size_t n1,
    for (j = 0; j < trunc; j++)
    {
       mpn_normmod_2expp1(ii[j], limbs);
-      if (i1 != i2) mpn_normmod_2expp1(jj[j], limbs);
+      if (i1 != i2 || n1 != n2) mpn_normmod_2expp1(jj[j], limbs);
       c = 2*ii[j][limbs] + jj[j][limbs];
 
       ii[j][limbs] = mpn_mulmod_2expp1_basecase(ii[j], ii[j], jj[j], c, n*w, tt);
